@@ -52,6 +52,9 @@ func nsAlphabet() []fsx.Op {
 		fsx.Op{K: "WRITE", H: "root/a", Off: 0, Cnt: 10, Pat: 0x11, Stable: 2},
 		fsx.Op{K: "WRITE", H: "root/a", Off: 4090, Cnt: 8200, Pat: 0x22, Stable: 1},
 		fsx.Op{K: "WRITE", H: "root/d/a", Off: 100, Cnt: 50, Pat: 0x33, Stable: 0},
+		// a write beyond two holes, and a multi-block write that fills holes in front of an allocated block without growing the file
+		fsx.Op{K: "WRITE", H: "root/a", Off: 8192, Cnt: 5000, Pat: 0x66, Stable: 2},
+		fsx.Op{K: "WRITE", H: "root/a", Off: 0, Cnt: 3 * 4096, Pat: 0x67, Stable: 2},
 		fsx.Op{K: "COMMIT", H: "root/d/a", Off: 0, Cnt: 0},
 		fsx.Op{K: "SETATTR", H: "root/a", Size: 0},
 		fsx.Op{K: "SETATTR", H: "root/a", Size: 100},
@@ -170,6 +173,12 @@ func init() {
 		Alphabet: []fsx.Op{{K: "RESTART"}, {K: "CREATE", H: "root/d", N: pad("L039")}, {K: "LOOKUP", H: "root/d", N: pad("L038"), As: "_"}, {K: "LOOKUP", H: "root/d", N: pad("L000"), As: "_"}, {K: "MKDIR", H: "root/d", N: pad("L020")},
 			{K: "REMOVE", H: "root/d", N: pad("L039")}, {K: "REMOVE", H: "root/d", N: pad("L017")}, {K: "RENAME", H: "root/d", N: pad("L001"), H2: "root/d", N2: pad("L038")},
 			{K: "CREATE", H: "root/d", N: pad("new")}, {K: "CREATE", H: "root/d", N: nameOfLen(200, 'q')}, {K: "REMOVETHIRD", H: "root/d"}}})
+	// a directory of two blocks reduced to a survivor in a chosen slot: emptiness is decided per slot
+	RegisterSeq("c02.bigdir", &SeqSpec{Prop: "C02", DiskSize: 3000, After: c02After,
+		Setup: []fsx.Op{{K: "MKDIR", H: "root", N: "d"}, {K: "CREATEMANY", H: "root/d", N: "m", Cnt: 40}, {K: "MKDIR", H: "root", N: "e"}},
+		Alphabet: []fsx.Op{{K: "KEEPONLY", H: "root/d", N: "m030"}, {K: "KEEPONLY", H: "root/d", N: "m031"}, {K: "KEEPONLY", H: "root/d", N: "m005"}, {K: "KEEPONLY", H: "root/d", N: "m039"},
+			{K: "KEEPONLY", H: "root/d", N: "none"}, {K: "RMDIR", H: "root", N: "d"}, {K: "REMOVE", H: "root", N: "d"}, {K: "RENAME", H: "root", N: "e", H2: "root", N2: "d"}, {K: "RESTART"},
+			{K: "CREATE", H: "root/d", N: "m030"}, {K: "LOOKUP", H: "root/d", N: "m031", As: "_"}}})
 	RegisterSeq("c02.names", &SeqSpec{Prop: "C02", DiskSize: 3000, Alphabet: nameAlphabet(), After: c02After})
 	RegisterSeq("c02.ns", &SeqSpec{Prop: "C02", DiskSize: 3000, Alphabet: nsAlphabet(), After: c02After})
 	RegisterSeq("c02.ns.xdr", &SeqSpec{Prop: "C02", DiskSize: 3000, Alphabet: nsAlphabet(), After: c02After, ViaXDR: true})
@@ -182,12 +191,13 @@ func C02(r *report.Report, tier string) {
 	if tier == "thorough" {
 		depth, offDepth, nameDepth = 6, 3, 3
 	}
-	r.Rule = fmt.Sprintf("breadth-first search over all operation sequences of length <=%d of a %d-symbol namespace/data alphabet on the real server (state = reference model + installed disk content + allocator cursors + inode cache, deduplicated); after every transition: the reply against the reference file system, an observation sweep (LOOKUP of every name incl. . and .., GETATTR, ACCESS, READ, READLINK, READDIR, READDIRPLUS, dead handles) and a full-tree dump comparison incl. handles; the same alphabet once more with every request (incl. the sweep and the dump) XDR-encoded, dispatched by procedure number through the registration table and its reply XDR-decoded; a further search from a directory of 40 names of the maximal length; a restart is a clean shutdown without any flush or idle time first (after a COMMIT if unstable writes are outstanding); distinct_nontrivial = distinct states reached", depth, len(nsAlphabet()))
+	r.Rule = fmt.Sprintf("breadth-first search over all operation sequences of length <=%d of a %d-symbol namespace/data alphabet on the real server (state = reference model + installed disk content + allocator cursors + inode cache, deduplicated); after every transition: the reply against the reference file system, an observation sweep (LOOKUP of every name incl. . and .., GETATTR, ACCESS, READ, READLINK, READDIR, READDIRPLUS, dead handles) and a full-tree dump comparison incl. handles; the same alphabet once more with every request (incl. the sweep and the dump) XDR-encoded, dispatched by procedure number through the registration table and its reply XDR-decoded; further searches from a directory of 40 names of the maximal length and from a two-block directory reduced to one survivor in a chosen slot (removal of a directory that is not empty); a restart is a clean shutdown without any flush or idle time first (after a COMMIT if unstable writes are outstanding); distinct_nontrivial = distinct states reached", depth, len(nsAlphabet()))
 	s1 := RunSeq(r, "c02.ns", depth)
 	s2 := RunSeq(r, "c02.ns.nounstable", depth-1)
 	s3 := RunSeq(r, "c02.names", nameDepth)
 	s4 := RunSeq(r, "c02.off", offDepth)
 	s5 := RunSeq(r, "c02.ns.xdr", depth-1)
 	s6 := RunSeq(r, "c02.longnames", depth-2)
-	r.Extra["searches"] = []*SeqSummary{s1, s2, s3, s4, s5, s6}
+	s7 := RunSeq(r, "c02.bigdir", depth-2)
+	r.Extra["searches"] = []*SeqSummary{s1, s2, s3, s4, s5, s6, s7}
 }
